@@ -13,7 +13,8 @@ LEVEL_TEXT = ('Generated trees over dict/FrozenDict/list/tuple/namedtuple/struct
               'to_bytes/from_bytes and to_state_dict/from_state_dict under several MAX_CHUNK_SIZE thresholds (1 byte upward) and '
               'compared bit-exactly; inputs are snapshotted before/after; every single-edit mutant of the saved state (delete/add '
               'key, shorten/lengthen sequence, rename/add/delete field) and every key-order permutation is restored and the outcome '
-              'compared with what the property text prescribes.')
+              'compared with what the property text prescribes.'
+              ' Round e/f: Rec namedtuple, rename-index mutant, restore from a frozen state dict.')
 LEVEL_NOTE = ('Trusts vf/snap.py comparators. Python ints outside 64 bits, object dtypes, non-string dict keys, OrderedDict/defaultdict '
               'are outside the property and not generated. Byte order is treated as layout (dtype.name + native bytes must match).')
 TECHNIQUE = 'runtime monitoring: bit-exact round-trip comparator + input snapshot contract + single-edit mismatch enumeration on the real serializers'
